@@ -354,6 +354,8 @@ class Daemon(object):
             return False
         except Exception as x:
             log.debug("handshake failed, reason:", exc_info=True)
+            if serializer_id not in serializers.serializers_by_id:
+                serializer_id = serializers.MarshalSerializer.serializer_id   # unknown serializer: report the failure with the default one
             serializer = serializers.serializers_by_id[serializer_id]
             data = serializer.dumps(str(x))
             msgtype = protocol.MSG_CONNECTFAIL
